@@ -19,6 +19,8 @@ IsNumber(x) == x.t = "i" \/ x.t = "f"
 IsCallable(x) == x.t = "a" \/ x.t = "c"
 RECURSIVE IsProperList(_)
 IsProperList(x) == (x.t = "a" /\ x.c = <<91, 93>>) \/ (x.t = "c" /\ x.c = <<46>> /\ Len(x.a) = 2 /\ IsProperList(x.a[2]))
+RECURSIVE IsPartialList(_)
+IsPartialList(x) == x.t = "c" /\ x.c = <<46>> /\ Len(x.a) = 2 /\ (x.a[2].t = "v" \/ IsPartialList(x.a[2]))
 RECURSIVE ListToSeq(_)
 ListToSeq(x) == IF x.t = "c" /\ x.c = <<46>> /\ Len(x.a) = 2 THEN <<x.a[1]>> \o ListToSeq(x.a[2]) ELSE << >>
 
@@ -68,6 +70,12 @@ Builtin(g) ==
      IF IsProperList(A(1)) THEN Sup(One(g, << <<A(2), IntT(Len(ListToSeq(A(1))))>> >>))
      ELSE IF A(1).t = "v" /\ A(2).t = "i" /\ A(2).v >= 0
           THEN Sup(One(g, << <<A(1), MkList([ i \in 1..A(2).v |-> VarT(900 + i) ])>> >>))
+     \* partial list [e1,...,ek|T] with a given length n: T is closed with n - k fresh variables; no solution when n < k
+     ELSE IF IsPartialList(A(1)) /\ A(2).t = "i"
+          THEN LET pre == ListToSeq(A(1))
+                   k == Len(pre)
+               IN  IF A(2).v < k THEN Sup(<< >>)
+                   ELSE Sup(One(g, << <<A(1), MkList(pre \o [ i \in 1..(A(2).v - k) |-> VarT(900 + i) ])>> >>))
      ELSE Unsup
   ELSE IF f = <<115,117,99,99>> /\ n = 2 THEN                       \* succ
      IF A(1).t = "i" /\ A(1).v >= 0 THEN Sup(One(g, << <<A(2), IntT(A(1).v + 1)>> >>))
